@@ -178,7 +178,11 @@ def oracle_props(ck, rng):
         if tilt:
             zt = ZNCCAlignment(t, mask, **kw)
             qs = Rotation.random(4, random_state=int(rng.integers(0, 2**31))).as_quat()
-            seq = [float(zt.score(x, q_, p)) for q_ in qs]
+            _ = zt.align(x, (1.0, 1.0, 1.0), qs[1], p)        # alignment calls in between must not leave traces either
+            seq = []
+            for j_, q_ in enumerate(qs):
+                seq.append(float(zt.score(x, q_, p)))
+                _ = zt.align(x, (1.0, 1.0, 1.0), qs[(j_ + 2) % 4], p); _ = zt.landscape(x, (1.0, 1.0, 1.0), qs[(j_ + 1) % 4], p)
             fresh = [float(ZNCCAlignment(t, mask, **kw).score(x, q_, p)) for q_ in qs]
             self_after = float(zt.score(t, qs[0], p))
             if np.abs(np.array(seq) - np.array(fresh)).max() > 1e-4 or abs(self_after - 1) > 1e-3:
@@ -189,6 +193,26 @@ def oracle_props(ck, rng):
             freshn = [float(NCCAlignment(t, mask, **kw).score(x, q_, p)) for q_ in qs]
             if np.abs(np.array(seqn) - np.array(freshn)).max() > 1e-4:
                 fails.append("ncc call-history: scores on one model differ from fresh models")
+        # up-sampled landscapes cover the same range as alignment searches (fractional limits included): the maximum of the landscape
+        # sampled every 1/k pixel lies at the displacement alignment reports
+        up = int(rng.choice([2, 4, 5]))
+        mfr = float(rng.choice([2.8, 1.6, 2.5]))
+        tt = ndi.gaussian_filter(rng.normal(size=(12, 12, 12)), 1.2).astype(np.float32)
+        dd = np.array([float(np.floor(mfr * up) / up) * float(rng.choice([-1, 1])), 0.0, float(rng.integers(-1, 2))])
+        F_ = np.fft.fftn(tt.astype(np.float64))
+        ph_ = 1.0
+        for ax_ in range(3):
+            shp_ = [1, 1, 1]; shp_[ax_] = 12
+            ph_ = ph_ * np.exp(-2j * np.pi * np.fft.fftfreq(12) * dd[ax_]).reshape(shp_)
+        xu = np.fft.ifftn(F_ * ph_).real.astype(np.float32)
+        for Mu in (ZNCCAlignment, NCCAlignment, PCCAlignment):
+            mu = Mu(tt)
+            lu = np.asarray(mu.landscape(xu, (mfr, mfr, mfr), upsample=up))
+            amu = (np.array(np.unravel_index(np.argmax(lu), lu.shape)) - (np.array(lu.shape) // 2)) / up
+            ru = mu.align(xu, (mfr, mfr, mfr))
+            if np.abs(amu - ru.shift).max() > 0.5 / up + 0.15:
+                fails.append(f"{Mu.__name__} upsampled-landscape: maximum of the x{up} landscape at {amu.tolist()} but align reports {np.round(ru.shift, 2).tolist()} "
+                             f"(max_shifts {mfr}, landscape length {lu.shape[0]})")
         ck.oracle_count("score_semantics", 1, 1)
         for f in fails:
             ck.violation(what=f, inp=c, key={"site": "semantics", "law": f.split(":")[0].split(" ")[0] + " " + (f.split(" ")[1] if " " in f else "")},
